@@ -7,6 +7,8 @@ RUNS = {"quick": 3000, "thorough": 80000}
 BUDGET_S = {"quick": 50, "thorough": 840}
 CHUNK = 40
 RULE = ('One evaluation = one seeded scenario on Slurm/SGE/LSF/local pool: arbitrary pre-history (runs, failures, cancellations, perturbations) drained so that nothing is pending/running -> `gwf run [patterns]` -> the simulated scheduler executes every submitted job successfully in a seeded legal order (any startable job may start, any running job may finish; on the local pool any interleaving of loop iterations), each job writing its declared outputs at simulated time -> oracle: `gwf status` shows every cone target with outputs completed and a second run submits only output-less targets; then 0-3 rounds of one perturbation (clock first advanced by more than one timestamp granule): the next run must submit exactly consumers-of-modified-source / producer-of-deleted-output + transitive dependents + output-less targets. Liveness: the drain must finish within 50+60n driver steps. Not injected (excluded by the premise): clock skew, backward clock jumps, job failures after the premise point, stale accounting between run and observation.')
+RULE += (" Histories also contain interrupted or failing gwf invocations (hard kill at a seam event, Ctrl-C, ENOSPC, a failing or "
+         "unreachable scheduler command) - only the invocations after them are judged - and 1-2 % of the runs use 140-260 targets.")
 PROFILE = dict(
     nontrivial_probes=["convergence_checks"],
     backends=["slurm", "slurm", "sge", "lsf", "local", "local"],
